@@ -242,9 +242,37 @@ def reacting_cases(rng, n):
                        meta=dict(kind='callback-talks', requester=R_, X=X, Y=Y, Z=Z, pgn=pgn))
 
 
+def renamed_cases(rng, n):
+    """a responder whose application changes a field of its NAME (the identity number) after the CA has already announced itself
+    and answered a request for the address-claim PGN: the next answer carries the NAME the CA has NOW"""
+    for k in range(n):
+        R_, X = rng.sample(range(0x10, 0xF0), 2)
+        bypass = k % 2 == 0
+        base = (rng.getrandbits(40) << 21) & ~(1 << 48) & ((1 << 63) - 1)
+        id1, id2 = rng.sample(range(1, 1 << 21), 2)
+        stacks = [dict(dll='j1939-21', max_cmdt=1, subs=[], cas=[dict(name=5, addr=R_, bypass=True, subs=[1], req=[2])]),
+                  dict(dll='j1939-21', max_cmdt=1, subs=[], cas=[dict(name=base | id1, addr=X, bypass=bypass, subs=[10], req=[11])])]
+        script = ([] if bypass else [dict(t=1000, s=1, op='ca_start', ca=0, delay=0)]) + \
+                 [dict(t=600000, s=0, op='ca_request', ca=0, a=[0, 0xEE00, rng.choice([X, 255])]),
+                  dict(t=800000, s=1, op='ca_set_identity', ca=0, value=id2),
+                  dict(t=1000000, s=0, op='ca_request', ca=0, a=[0, 0xEE00, rng.choice([X, 255])])]
+        yield dict(stacks=stacks, lat=[rng.choice([1, 500])], jit=[1], script=script, horizon=1_500_000, oracle_only=True,
+                   meta=dict(kind='renamed-responder', X=X, before=base | id1, after=base | id2))
+
+
 def reacting_oracle(sc, res):
     from collections import Counter
     m, v = sc['meta'], []
+    if m['kind'] == 'renamed-responder':
+        ans = [(e[0], sum(b << (8 * i) for i, b in enumerate(e[6]))) for e in res.trace
+               if e[2] == 'tx' and e[1] == 1 and ((e[3] >> 8) & 0xFFFF) == 0xEEFF and (e[3] & 0xFF) == m['X']]
+        first = [nm for t, nm in ans if 600000 <= t < 800000]
+        second = [nm for t, nm in ans if t >= 1000000]
+        mask = ~(1 << 48)
+        if [nm & mask for nm in first] != [m['before'] & mask] or [nm & mask for nm in second] != [m['after'] & mask]:
+            v.append(dict(kind='claim-answer-does-not-carry-the-name-the-ca-has-now', first=[hex(x) for x in first], second=[hex(x) for x in second],
+                          before=hex(m['before']), after=hex(m['after'])))
+        return v
     obs = Counter((e[3], e[4], e[5], e[6]) for e in res.trace if e[2] == 'req' and e[1] == 1)
     if m['kind'] == 'callback-fails-once':
         # (the request during which the application's callback failed is the application's business; the later ones are not)
@@ -269,7 +297,7 @@ def scenario_runner(sc):
 
 
 def scenario_oracle(sc, res):
-    if isinstance(sc.get('meta'), dict) and sc['meta'].get('kind') in ('callback-fails-once', 'callback-talks'):
+    if isinstance(sc.get('meta'), dict) and sc['meta'].get('kind') in ('callback-fails-once', 'callback-talks', 'renamed-responder'):
         return reacting_oracle(sc, res)
     return oracle(sc, res)
 
@@ -289,7 +317,7 @@ def run(out, tier, rng, work):
     sprop.run_stateful(out, 'C14', tier, rng, work, FILES, gen, oracle, 150, 2500, nontrivial,
                        sample=lambda sc, res: dict(meta=sc['meta'][:3], requests=[e['a'] for e in sc['script'] if e['op'] == 'ca_request'][:3]))
     import scen as _scen
-    for sc in reacting_cases(rng, 12 if tier == 'quick' else 120):
+    for sc in list(reacting_cases(rng, 12 if tier == 'quick' else 120)) + list(renamed_cases(rng, 8 if tier == 'quick' else 80)):
         res = _scen.run(sc)
         out.add_case(_scen.sc_hash(sc), True)
         for x in reacting_oracle(sc, res)[:1]:
